@@ -154,6 +154,7 @@ def run(ctx):
         dis = run_api(ctx, 1200, 400)
         dis += run_program(ctx, 10)
     program_multibunch(ctx)
+    __import__("c03_sine").run(ctx)      # (family st3drv) sinusoidal RF, SynchrotronFrequency / alpha0 routes
     ctx.extra["correspondence_disagreements"] = len(dis)
     # downgrade rule of DESIGN 2.2 for the offset-field translator (family rfgen): when translate/rfdrift2coq.py no longer
     # recognises RFKickMap.cpp / DriftMap.cpp (a restructuring outside its idioms) the last-good Gen_RFDrift.v keeps the
